@@ -73,7 +73,7 @@ def run(tier, seed, replay=None):
             except RecursionError:
                 out.count("skipped", "recursion")
                 continue
-            if impl == "ask" and dec.reason.startswith("parse error"):
+            if impl == "ask" and lib.parser_rejects(p.text):
                 # the vendored parser rejects this (valid) program: C05 mandates ask; the
                 # composition law speaks about analysed trees.  Counted, not judged.
                 out.count("skipped", "parser-rejected")
